@@ -266,7 +266,7 @@ COMBOS = list(itertools.product(['shuffle', 'fixed'], repeat=3))
 def bounded_random(ctx):
     thorough = ctx.tier == 'thorough'
     rng = random.Random(ctx.seed + 2)
-    nform = 1500 if thorough else 200
+    nform = 6000 if thorough else 200
     seeds = 6 if thorough else 3
     ctx.bounds['random'] = ('{} random formulas (0..12 variables, 0..16 clauses, widths 0..4, repeated/opposite literals, unused variables, '
                             'some with named variables) x {} seeds x the 8 fixed/shuffle combinations; witness searched by backtracking'
